@@ -152,7 +152,7 @@ def gates(c, tier):
               "direct:unregistered-generic-control", "direct:unregistered-filter-protocolerror", "direct:unregistered-auth-protocolerror",
               "direct:duplicate-refused", "direct:builtin-clash-refused", "custom-bytes-in-sequence", "registration-in-sequence",
               "caller-buffer-shared-between-sessions", "direct:multi-control-messages", "direct:same-number-different-form", "direct:nested-custom-filter", "direct:deepcopy-independence", "fresh-process-reference-runs",
-              "direct:late-registration-decodes-custom"):
+              "direct:late-registration-decodes-custom", "direct:free-id-registrations", "direct:fresh-session-after-foreign-failure"):
         if c.get(k, 0) == 0:
             out.append(f"never observed {k}")
     for sub in range(8):
@@ -576,6 +576,108 @@ def direct_checks():
             obs["direct:late-registration-decodes-custom"] = obs.get("direct:late-registration-decodes-custom", 0) + 1
     except sl.LDAPError as e:
         vio.append(("late-registration-ignored:control:client", f"{type(e).__name__}: {e}"))
+    # custom types may use any id the built-ins leave free, also small ones next to the built-ins and ids that need the
+    # high-tag-number form
+    def _mk_auth(aid):
+        @dataclasses.dataclass(frozen=True)
+        class _A(sl.AuthenticationCredential):
+            auth_id: int = dataclasses.field(init=False, repr=False, default=aid)
+            blob: bytes = b""
+
+            def pack(self, writer, options):
+                writer.write_octet_string(self.blob, tag=A.ASN1Tag(A.TagClass.CONTEXT_SPECIFIC, aid, False))
+
+            @classmethod
+            def unpack(cls, reader, options):
+                return cls(blob=reader.read_octet_string(tag=A.ASN1Tag(A.TagClass.CONTEXT_SPECIFIC, aid, False)))
+
+        _A.__name__ = _A.__qualname__ = f"SmallIdAuth{aid}"
+        return _A
+
+    def _mk_filter(fid):
+        @dataclasses.dataclass(frozen=True)
+        class _F(sl.LDAPFilter):
+            filter_id: int = dataclasses.field(init=False, repr=False, default=fid)
+            blob: bytes = b""
+
+            def pack(self, writer, options):
+                writer.write_octet_string(self.blob, tag=A.ASN1Tag(A.TagClass.CONTEXT_SPECIFIC, fid, False))
+
+            @classmethod
+            def unpack(cls, reader, options):
+                return cls(blob=reader.read_octet_string(A.ASN1Tag(A.TagClass.CONTEXT_SPECIFIC, fid, False)))
+
+        _F.__name__ = _F.__qualname__ = f"SmallIdFilter{fid}"
+        return _F
+
+    for aid in (1, 2, 4, 5, 30, 31, 127, 128):
+        cls5 = _mk_auth(aid)
+        root = rfc4511.Enc().message(("BindRequest", 3, (3, "cn=a", ("simple", "x")), ()))
+        root.children[1].children[2] = ber.Node(ber.CTX, False, aid, content=b"small-id")
+        data5 = ber.ser(root)
+        try:
+            s5 = sl.LDAPServer()
+            s5.register_auth_credential(cls5)
+            got5 = s5.receive(data5)[0]
+            if type(got5.authentication) is not cls5 or got5.authentication.blob != b"small-id":
+                vio.append(("registered-auth-not-decoded:free-id", f"credential type registered with id {aid} decoded as {got5.authentication!r}"))
+            elif got5.pack(sl._messages.PackingOptions()) != data5:
+                vio.append(("registered-auth-reencode:free-id", f"id {aid}: re-encoding differs"))
+            else:
+                obs["direct:free-id-registrations"] = obs.get("direct:free-id-registrations", 0) + 1
+        except (sl.LDAPError, ValueError) as e:
+            vio.append(("registered-auth-not-decoded:free-id", f"credential type registered with the free id {aid}: {type(e).__name__}: {e}"))
+        try:
+            sl.LDAPServer().receive(data5)
+            vio.append(("registration-leaked:auth:free-id", f"unregistered session accepted credential id {aid}"))
+        except sl.ProtocolError:
+            pass
+    for fid in (10, 11, 30, 31, 127, 128):
+        cls6 = _mk_filter(fid)
+        root = rfc4511.Enc().message(("SearchRequest", 4, ("dc=x", 2, 0, 0, 0, False, ("present", "cn"), ()), ()))
+        root.children[1].children[6] = ber.Node(ber.CTX, False, fid, content=b"small-id")
+        data6 = ber.ser(root)
+        try:
+            s6 = sl.LDAPServer()
+            s6.register_filter(cls6)
+            got6 = s6.receive(data6)[0]
+            if type(got6.filter) is not cls6 or got6.filter.blob != b"small-id":
+                vio.append(("registered-filter-not-decoded:free-id", f"filter type registered with id {fid} decoded as {got6.filter!r}"))
+            else:
+                obs["direct:free-id-registrations"] = obs.get("direct:free-id-registrations", 0) + 1
+        except (sl.LDAPError, ValueError) as e:
+            vio.append(("registered-filter-not-decoded:free-id", f"filter type registered with the free id {fid}: {type(e).__name__}: {e}"))
+        try:
+            sl.LDAPServer().receive(data6)
+            vio.append(("registration-leaked:filter:free-id", f"unregistered session accepted filter id {fid}"))
+        except sl.ProtocolError:
+            pass
+    # what one session went through (a refused, deeply nested request received with little stack headroom) says nothing
+    # about what a fresh session accepts afterwards
+    from vf.common import call_with_headroom
+    from vf.gen import corrupt as _C
+
+    deep_req = _C.nested_filter_search(120, "not")
+    try:
+        before = [type(m).__name__ for m in sl.LDAPServer().receive(deep_req)]
+    except sl.ProtocolError:
+        before = "ProtocolError"
+    for hd, hh in ((90, 70), (60, 100), (150, 120)):
+        victim = sl.LDAPServer()
+        try:
+            call_with_headroom(hh, lambda: victim.receive(_C.nested_filter_search(hd, "not")))
+        except sl.ProtocolError:
+            obs["direct:low-headroom-session-refused"] = obs.get("direct:low-headroom-session-refused", 0) + 1
+        except RecursionError:
+            pass  # C05's subject
+    try:
+        after = [type(m).__name__ for m in sl.LDAPServer().receive(deep_req)]
+    except sl.ProtocolError:
+        after = "ProtocolError"
+    if after != before:
+        vio.append(("other-sessions-failure-changes-fresh-session", f"a fresh server given a 120-level nested search returned {before} before, {after} after another session had failed on nested input with little stack headroom"))
+    else:
+        obs["direct:fresh-session-after-foreign-failure"] = 1
     # the custom filter nested under and / or / not
     regf = sl.LDAPServer()
     regf.register_filter(CustomFilter)
